@@ -312,6 +312,19 @@ func (m *Machine) dlgListOf(st *state.StateDB, a common.Address) (s string) {
 	return strings.Join(parts, ",")
 }
 
+// NoGhostAccounts reports whether no account is self-destructed or touched-but-empty in the
+// running transaction. Only then may a Copy be taken before Finalise: the copy's journal
+// is empty, so its Finalise would not delete such accounts (upstream go-ethereum
+// behaviour, which is why upstream callers copy finalised states).
+func (m *Machine) NoGhostAccounts() bool {
+	for _, a := range append(Addrs[:], PenaltyTo) {
+		if m.St.HasSuicided(a) || (m.St.Exist(a) && m.St.Empty(a)) {
+			return false
+		}
+	}
+	return true
+}
+
 // CopySafe reports whether every delegator's current list is empty or has its blob in
 // the node database (otherwise Copy loses it: class copy-loses-delegations).
 func (m *Machine) CopySafe() bool {
@@ -605,12 +618,23 @@ func (m *Machine) Exec(idx int, op Op) bool {
 		if status == params.ValidatorOnline && old.Stake.Uint64() < MinStake {
 			return false
 		}
-		nv := old.PartialCopy()
-		nv.Status = status
-		nv.UpdateLastActive(m.Height)
-		st.UpdateValidator(nv, old)
+		changed := status != old.Status
+		if op.M&2 == 2 {
+			// the in-place calling style (as teDelegationSub's forced-offline step,
+			// rewardsToPool, recoverFromExpiredExpelling): edit the stored object, pass a copy as old
+			cp := old.PartialCopy()
+			old.Status = status
+			old.UpdateLastActive(m.Height)
+			st.UpdateValidator(old, cp)
+			m.label("status-in-place")
+		} else {
+			nv := old.PartialCopy()
+			nv.Status = status
+			nv.UpdateLastActive(m.Height)
+			st.UpdateValidator(nv, old)
+		}
 		m.event("vj", op.V%NVal)
-		if status != old.Status {
+		if changed {
 			m.label("status-change")
 		}
 	case "dadd": // staking.teDelegationAdd
